@@ -605,6 +605,7 @@ func diffSpec(want, got specRIB) string {
 // oracleC01: installed state == fold of the acknowledged operations, after every step.
 func oracleC01(c RCase) string {
 	spec := specRIB{}
+	failed := map[uint64]bool{}
 	ops := map[uint64]drv.OpSpec{}
 	problem := ""
 	ribRun(c, func(i int, st RStep, o StepObs, r *rib.RIB) {
@@ -618,7 +619,20 @@ func oracleC01(c RCase) string {
 		if st.Op != nil {
 			ops[st.Op.ID] = *st.Op
 		}
+		for _, id := range o.Fails {
+			failed[id] = true
+		}
+		for _, id := range o.Pend {
+			if failed[id] {
+				problem = fmt.Sprintf("step %d: operation %d was answered FAILED and is held nevertheless", i, id)
+				return
+			}
+		}
 		for _, id := range o.Oks {
+			if failed[id] {
+				problem = fmt.Sprintf("step %d: operation %d is acknowledged after it was answered FAILED", i, id)
+				return
+			}
 			op, ok := ops[id]
 			if !ok {
 				problem = fmt.Sprintf("step %d: acknowledged id %d was never sent", i, id)
